@@ -159,6 +159,8 @@ func runC20(c *engine.Ctx, tier string) {
 	errorDomains(c, "C20.7b", []string{pkgTxCtlV3, pkgCfgCtlV3, pkgMsCtlV3})
 	// (8) swallowed conflicts
 	swallowedConflicts(c, vp)
+	// (11) update tables
+	v3UpdateTables(c, vp)
 }
 
 func wroteBefore(p *engine.Path, i int, field, rhs string) bool {
@@ -300,4 +302,192 @@ func caseOf(p *engine.Path, i int) string {
 		}
 	}
 	return out
+}
+
+// ---- C20.11: the update tables of the spec's actions
+
+type v3Must struct {
+	field string // field id
+	lhs   string // required suffix of the written path ("" = any)
+	rhs   string // required right-hand side after stripping version suffixes ("" = any)
+	call  string // or: a call
+	loop  string // for element writes: prefix of the collection the writing loop ranges over (a path with zero iterations of it is fine)
+}
+
+type v3Action struct {
+	id     string
+	root   string                           // phase function
+	lhs    string                           // anchor: $Transaction.Status.<lhs> := state
+	state  string                           // anchor state constant (without prefix)
+	unless func(p *engine.Path, i int) bool // the anchor is a recovery branch: the table does not apply
+	musts  []v3Must
+	why    string
+}
+
+func stripVers(s string) string {
+	var b strings.Builder
+	for i := 0; i < len(s); i++ {
+		if s[i] == '#' {
+			j := i + 1
+			for j < len(s) && s[j] >= '0' && s[j] <= '9' {
+				j++
+			}
+			if j > i+1 {
+				i = j - 1
+				continue
+			}
+		}
+		b.WriteByte(s[i])
+	}
+	return b.String()
+}
+
+func condHolds(p *engine.Path, i int, want string) bool {
+	for _, l := range engine.CondsBefore(p, i) {
+		if stripVers(l.String()) == want {
+			return true
+		}
+	}
+	return false
+}
+
+func v3UpdateTables(c *engine.Ctx, vp []*engine.Path) {
+	T, CFG, IDX := "$Transaction", "$Configuration", "$Transaction.ID.Index"
+	cc, ac := "config/v3.CommittedConfiguration.", "config/v3.AppliedConfiguration."
+	rev := func(x string) string { return "config/v3.Revision(" + x + ")" }
+	txUpd, cfgUpd := v3Must{call: v3TxUpd}, v3Must{call: v3CfgUpd}
+	appliedOwn := func(ord string, withTarget bool) []v3Must {
+		m := []v3Must{{field: ac + "Index", rhs: IDX}, {field: ac + "Ordinal", rhs: ord}, cfgUpd, txUpd}
+		if withTarget {
+			m = append(m, v3Must{field: ac + "Target", rhs: IDX})
+		}
+		return m
+	}
+	chOrd, rbOrd := T+".Status.Change.Ordinal", T+".Status.Rollback.Ordinal"
+	actions := []v3Action{
+		{id: "commit-change/begin", root: "commitChange", lhs: "Change.Commit.State", state: "IN_PROGRESS",
+			musts: []v3Must{{field: "config/v3.TransactionRollbackStatus.Index", rhs: "config/v3.Index(" + CFG + ".Committed.Revision)"}, {field: "config/v3.TransactionRollbackStatus.Values"}, txUpd},
+			why:   "CommitChange/Pending: the prior revision and the prior values of every path are captured with the transition"},
+		{id: "commit-change/complete", root: "commitChange", lhs: "Change.Commit.State", state: "COMPLETE",
+			musts: []v3Must{{field: "config/v3.TransactionChangeStatus.Ordinal", rhs: CFG + ".Committed.Ordinal"}, txUpd},
+			why:   "CommitChange/InProgress: the change takes the ordinal the committed configuration reached"},
+		{id: "commit-change/failed", root: "commitChange", lhs: "Change.Commit.State", state: "FAILED",
+			musts: []v3Must{{field: v3State, lhs: "Change.Apply.State", rhs: v3Pfx + "CANCELED"}, {field: cc + "Index", rhs: IDX}, {field: cc + "Change", rhs: IDX}, cfgUpd, txUpd},
+			why:   "a rejected change cancels its apply phase and still moves the committed cursors past itself, or its successors never commit"},
+		{id: "apply-change/begin", root: "applyChange", lhs: "Change.Apply.State", state: "IN_PROGRESS",
+			unless: func(p *engine.Path, i int) bool { return condHolds(p, i, CFG+".Applied.Target == "+IDX) },
+			musts:  []v3Must{{field: ac + "Target", rhs: IDX}, cfgUpd, txUpd},
+			why:    "ApplyChange/Pending: the applied target is claimed before the phase is marked in progress"},
+		{id: "apply-change/complete", root: "applyChange", lhs: "Change.Apply.State", state: "COMPLETE",
+			unless: func(p *engine.Path, i int) bool { return condHolds(p, i, CFG+".Applied.Ordinal == "+chOrd) },
+			musts:  append(appliedOwn(chOrd, false), v3Must{field: ac + "Revision", rhs: rev(IDX)}, v3Must{field: ac + "Values[]", loop: "controller/v3/transaction.addDeleteChildren("}),
+			why:    "ApplyChange/InProgress: index, ordinal, revision and values of the applied configuration move together with the completion"},
+		{id: "apply-change/failed", root: "applyChange", lhs: "Change.Apply.State", state: "FAILED", musts: appliedOwn(chOrd, false),
+			why: "a refused change still moves the applied index and ordinal past itself"},
+		{id: "apply-change/aborted", root: "applyChange", lhs: "Change.Apply.State", state: "ABORTED", musts: appliedOwn(chOrd, true),
+			why: "an aborted change moves the applied cursors past itself"},
+		{id: "commit-rollback/begin", root: "commitRollback", lhs: "Rollback.Commit.State", state: "IN_PROGRESS",
+			unless: func(p *engine.Path, i int) bool { return !condHolds(p, i, CFG+".Committed.Target == "+IDX) },
+			musts:  []v3Must{{field: cc + "Target", rhs: T + ".Status.Rollback.Index"}, cfgUpd, txUpd},
+			why:    "CommitRollback/Pending: the committed target is moved back to the rollback index before the phase is marked in progress"},
+		{id: "commit-rollback/complete", root: "commitRollback", lhs: "Rollback.Commit.State", state: "COMPLETE",
+			unless: func(p *engine.Path, i int) bool { return !condHolds(p, i, CFG+".Committed.Revision == "+rev(IDX)) },
+			musts: []v3Must{{field: cc + "Values[]", rhs: "elem(" + T + ".Status.Rollback.Values)", loop: T + ".Status.Rollback.Values"}, {field: cc + "Index", rhs: IDX}, {field: cc + "Ordinal", rhs: "(" + CFG + ".Committed.Ordinal + 1)"},
+				{field: cc + "Revision", rhs: rev(T + ".Status.Rollback.Index")}, cfgUpd, {field: "config/v3.TransactionRollbackStatus.Ordinal", rhs: CFG + ".Committed.Ordinal"}, txUpd},
+			why: "CommitRollback/InProgress: the displaced values are written back and index, ordinal and revision move together"},
+		{id: "apply-rollback/abort-change", root: "applyRollback", lhs: "Change.Apply.State", state: "ABORTED", musts: appliedOwn(chOrd, true),
+			why: "a pending change that is rolled back is aborted and the applied cursors move past it"},
+		{id: "apply-rollback/fail-change", root: "applyRollback", lhs: "Change.Apply.State", state: "FAILED", musts: appliedOwn(chOrd, true),
+			why: "a hanging change that is rolled back is failed and the applied cursors move past it"},
+		{id: "apply-rollback/begin", root: "applyRollback", lhs: "Rollback.Apply.State", state: "IN_PROGRESS",
+			unless: func(p *engine.Path, i int) bool {
+				return condHolds(p, i, CFG+".Applied.Target == "+T+".Status.Rollback.Index")
+			},
+			musts: []v3Must{{field: ac + "Target", rhs: T + ".Status.Rollback.Index"}, cfgUpd, txUpd},
+			why:   "ApplyRollback/Pending: the applied target is moved back before the phase is marked in progress"},
+		{id: "apply-rollback/complete", root: "applyRollback", lhs: "Rollback.Apply.State", state: "COMPLETE",
+			unless: func(p *engine.Path, i int) bool { return condHolds(p, i, CFG+".Applied.Ordinal == "+rbOrd) },
+			musts:  append(appliedOwn(rbOrd, false), v3Must{field: ac + "Revision", rhs: rev(T + ".Status.Rollback.Index")}, v3Must{field: ac + "Values[]", loop: "controller/v3/transaction.addDeleteChildren("}),
+			why:    "ApplyRollback/InProgress: index, ordinal, revision and values of the applied configuration move together with the completion"},
+		{id: "apply-rollback/failed", root: "applyRollback", lhs: "Rollback.Apply.State", state: "FAILED", musts: appliedOwn(rbOrd, false),
+			why: "a refused rollback still moves the applied index and ordinal past itself"},
+	}
+	for _, a := range actions {
+		a := a
+		o := c.Custom("C20.11/"+a.id, "K-must(update table)", a.root+": a pass that writes Status."+a.lhs+" := "+a.state+" and reports progress (second result true) also performs: "+v3MustText(a.musts), a.why)
+		reported := map[string]bool{}
+		for _, p := range vp {
+			if !strings.HasSuffix(p.Root.Name(), "Reconciler."+a.root) {
+				continue
+			}
+			last := &p.Events[len(p.Events)-1]
+			if last.Kind != engine.EvReturn || len(last.Results) != 3 || last.Results[1] != "true" {
+				continue
+			}
+			anchor := -1
+			for i := range p.Events {
+				e := &p.Events[i]
+				if e.Kind == engine.EvWrite && e.Field == v3State && e.LHS == "$Transaction.Status."+a.lhs && e.RHS == v3Pfx+a.state {
+					anchor = i
+				}
+			}
+			if anchor < 0 || (a.unless != nil && a.unless(p, anchor)) {
+				continue
+			}
+			o.Site(c.P.Pos(p.Events[anchor].Pos) + " " + a.lhs + " := " + a.state)
+			for _, m := range a.musts {
+				o.Eval(1)
+				found := false
+				for i := range p.Events {
+					e := &p.Events[i]
+					switch {
+					case m.call != "":
+						if e.Kind == engine.EvCall && e.CalleeName == m.call {
+							found = true
+						}
+					case e.Kind == engine.EvWrite && e.Field == m.field && e.Op != "lit":
+						if (m.lhs == "" || strings.HasSuffix(e.LHS, m.lhs)) && (m.rhs == "" || stripVers(e.RHS) == m.rhs || strings.HasPrefix(stripVers(e.RHS), m.rhs)) {
+							found = true
+						}
+					}
+				}
+				if !found && m.loop != "" {
+					// the writing loop is there and this path runs it zero times
+					for i := 0; i+1 < len(p.Events); i++ {
+						if e := &p.Events[i]; e.Kind == engine.EvLoopEnter && strings.HasPrefix(e.Range, m.loop) && p.Events[i+1].Kind == engine.EvLoopExit {
+							found = true
+						}
+					}
+				}
+				if !found {
+					what := m.call
+					if what == "" {
+						what = m.field + " := " + m.rhs
+					}
+					if !reported[what] {
+						reported[what] = true
+						o.Fail(&engine.Violation{Key: "controller/v3/transaction.Reconciler." + a.root + "|" + a.id + " without " + what, Pos: c.P.Pos(p.Events[anchor].Pos), Func: p.Root.Name(),
+							Msg:   "the pass marks " + a.lhs + " " + a.state + " and reports progress without " + what,
+							Found: engine.LitsString(engine.CondsBefore(p, anchor))})
+					}
+				}
+			}
+		}
+		o.Done(1)
+	}
+}
+
+func v3MustText(ms []v3Must) string {
+	var out []string
+	for _, m := range ms {
+		switch {
+		case m.call != "":
+			out = append(out, "call "+m.call[strings.Index(m.call, "/")+1:])
+		case m.rhs != "":
+			out = append(out, m.field[strings.LastIndex(m.field, "/")+1:]+" := "+m.rhs)
+		default:
+			out = append(out, "write "+m.field[strings.LastIndex(m.field, "/")+1:])
+		}
+	}
+	return strings.Join(out, "; ")
 }
